@@ -227,6 +227,84 @@ func checkC18(r *Result) {
 		}
 		r.check(ok && inMsgLoop, "LOOP-ACCUM", "(x/reporter/ante.TrackStakeChangesDecorator).AnteHandle # "+c.dir+" amount is accumulated over the messages", P.Pos(c.where.Pos()), fmt.Sprintf("loop-carried sum: %v ; addends: %v ; carried around the loop over tx.GetMsgs(): %v", ok, det, inMsgLoop))
 	}
+	// the list that is walked is the transaction's message list itself, or an expansion of it that a helper
+	// builds without rewriting the list it is reading (append into msgs[:0] while ranging over msgs)
+	{
+		nLoops := 0
+		for _, h := range loopHeaders(ah) {
+			iff, ok := h.Instrs[len(h.Instrs)-1].(*ssa.If)
+			if !ok {
+				continue
+			}
+			cond := tm.Of(iff.Cond)
+			if !cond.Contains("Tx.GetMsgs") {
+				continue
+			}
+			nLoops++
+			lenT := cond.Find(func(t *Term) bool { return t.Op == "call:builtin:len" && len(t.Args) == 1 })
+			okList, why := false, "loop bound is not len(list)"
+			if lenT != nil {
+				list := lenT.Args[0]
+				switch {
+				case strings.HasSuffix(list.Op, "Tx.GetMsgs"):
+					okList, why = true, "ranges over tx.GetMsgs()"
+				case strings.HasPrefix(list.Op, "call:") && P.Func(strings.TrimPrefix(list.Op, "call:")) != nil:
+					hf := P.Func(strings.TrimPrefix(list.Op, "call:"))
+					inPlace := ""
+					for _, f := range withClosures(hf) {
+						for _, b := range f.Blocks {
+							for _, in := range b.Instrs {
+								c, ok := in.(*ssa.Call)
+								if !ok {
+									continue
+								}
+								if bi, ok := c.Call.Value.(*ssa.Builtin); !ok || bi.Name() != "append" {
+									continue
+								}
+								// does the destination reach back to a reslice of a parameter?
+								seen := map[ssa.Value]bool{}
+								var walk func(v ssa.Value) bool
+								walk = func(v ssa.Value) bool {
+									if v == nil || seen[v] {
+										return false
+									}
+									seen[v] = true
+									switch x := v.(type) {
+									case *ssa.Slice:
+										_, isParam := x.X.(*ssa.Parameter)
+										return isParam
+									case *ssa.Phi:
+										for _, e := range x.Edges {
+											if walk(e) {
+												return true
+											}
+										}
+									case *ssa.Call:
+										if bi, ok := x.Call.Value.(*ssa.Builtin); ok && bi.Name() == "append" {
+											return walk(x.Call.Args[0])
+										}
+									}
+									return false
+								}
+								if walk(c.Call.Args[0]) {
+									inPlace = P.Pos(c.Pos())
+								}
+							}
+						}
+					}
+					okList = inPlace == ""
+					why = "ranges over " + FuncName(hf) + "(tx.GetMsgs())"
+					if !okList {
+						why += ", which appends into a reslice of the list it is reading at " + inPlace
+					}
+				default:
+					why = "walked list: " + list.Brief()
+				}
+			}
+			r.check(okList, "LOOP-ACCUM", "(x/reporter/ante.TrackStakeChangesDecorator).AnteHandle # every message of the transaction is visited", P.Pos(ah.Pos()), why)
+		}
+		r.check(nLoops == 1, "LOOP-ACCUM", "(x/reporter/ante.TrackStakeChangesDecorator).AnteHandle # one loop over the transaction's messages", P.Pos(ah.Pos()), fmt.Sprint(nLoops))
+	}
 	var tys []string
 	for ty := range wantTypes {
 		tys = append(tys, ty)
